@@ -2,6 +2,7 @@ import IncrVerif.Proofs.BindH3
 import IncrVerif.Proofs.BindH13
 import IncrVerif.Proofs.BindH18
 import IncrVerif.Proofs.BindH44
+import IncrVerif.Proofs.BindH79
 /-!
 # C03 (ordering) — nodes built inside a bind closure never run before the bind's change detector
 
@@ -88,9 +89,27 @@ drain (a bind's main node is re-linked to another right-hand side, nodes become 
 * `lcStepsOK_F0 : LcStepsOK env (F0Inv env)`, hence WITHOUT any hypothesis about the steps: `drainHeap_F0` (values = `evalB` in the final graph, all change detectors non-stale),
   `drain_once_F0` (no node runs twice) (`BindH44`).
 
+## PROVED HERE (milestone B2 + B3 END TO END for fragment F1: closures that CREATE nodes; `Proofs/BindH45.lean` … `BindH79.lean`)
+
+FRAGMENT F1 (`BindH.F1Inv env s`, `BindH.All1`, `BindH.GInv1`): top-level nodes `const`/`var`/pure `map`/`fold`/`bindLhsChange`/`bindMain` (valid for ever); a run of the
+closure of bind `b` elaborates a template (`TemplOK`) whose instructions are `const`, `lhsConst`, pure `map`, `fold` — each creates one node in scope `.bind b` — over top-level
+nodes OLDER than the bind (`.outer k`) and earlier locals (`.loc j`), and returns one of these; NO nested binds.  When the change detector runs again the previous generation is invalidated.
+* `BindH.rkOf`: a rank that decreases along every child edge and from a scope node to the change detector of its scope (creation order does not: a bind's main node is older than
+  the nodes its closure creates); injective (`All1.rk_inj`).
+* `BindH.GInv1 env s op ex dy` (`BindH45`): `GInvB` + THE SCOPE HEIGHT RULE `scopeH` (a closed necessary valid node of scope `b` is strictly higher than `b`'s change detector) + invalid
+  nodes are isolated (`inv`) + scope nodes/change detectors are unobserved; `All1.gen`: the registered nodes `allNodesCreatedOnRhs` (plus the dying generation `dy`) are EXACTLY the valid
+  nodes of the scope; `GInv1.scope_no_parents` (scope necessity: nodes of a scope are necessary only through the bind's main node), `bgraph_of_ginv1`.
+* the cascades in rank order: `becameNecessary_spec1` (a node created in a scope starts at `scope.height() + 1`; when a change detector becomes necessary no node of its scope is),
+  `addParentWithoutAdjustingHeights_spec1`, `checkIfUnnecessary_spec1`, `removeParent_dropLast*1` (`BindH49–57`).
+* `adjustHeights_spec1` (`BindH58–60`): the loop over `allNodesCreatedOnRhs` restores the scope height rule when a change detector is raised.
+* the four phases of a run of a change detector: `closure_spec1 : ClosureSpec1 env` (`elabTemplate`: node creation in the scope, `BindH62–65`), `relink_spec1 : RelinkSpec1 env`
+  (`changeChildBindRhs`, `BindH66–70`), `inval_spec1 : InvalSpec1 env` (the previous generation is invalidated, `BindH71–72`), and `recomputeOne_lcF1` (`BindH73–77`): the run
+  satisfies `StepL` and keeps `F1Inv`; `recomputeOne_stepB_F1`, `pop_F1` (`BindH78`).
+* `lcStepsOK_F1 : LcStepsOK env (F1Inv env)`, hence WITHOUT any hypothesis about the steps: `drainHeap_F1`, `drain_once_F1` (`BindH79`).
+
 ## ASSUMED (explicit hypotheses), NOT PROVED HERE
 
-Outside fragment F0, `LcStepsOK env Aux` (the structural half, milestone B2: that `recomputeOne` on a change detector — closure run, `elabTemplate`, `changeChildBindRhs`, `adjustHeights`,
+Outside fragments F0/F1 (nested binds, closures referring to nodes younger than the bind, `map_ref`, `map_with_old`, expert nodes, user cutoffs, effects), `LcStepsOK env Aux` (the structural half, milestone B2: that `recomputeOne` on a change detector — closure run, `elabTemplate`, `changeChildBindRhs`, `adjustHeights`,
 invalidation of the old generation — satisfies `StepL`) is a HYPOTHESIS of the drain theorems here.  It was validated by running the Boolean versions of `DInv`,
 `StepRelB`, `StepL` (`BindH.dinvB`, `stepRelBReport`, `stepLReport`) on every step of the drains of 400 generated histories of the fragment (9009 steps, 1739 runs of
 change detectors, 0 violations).  The B1 theorems take `OrderInv` as a hypothesis; `DInv` implies what they need.  The theorems say nothing about INVALID popped nodes
@@ -224,6 +243,32 @@ theorem recomputeOne_lcF0 {env : Env} {fuel n b : Nat} {s s' : State} {r : Optio
     (h : (recomputeOne env fuel n).run.run s = (.ok r, s')) :
     (∃ br br', StepL env n b br br' r s s') ∧ F0Inv env s' :=
   BindH.recomputeOne_lcF0 (relink_specB env) I A hk h
+
+/-! ## B2 + B3 end to end, fragment F1 (closures create nodes) -/
+
+/-- **The drain of an F1 program**: no hypothesis about the steps.  Values = `evalB` in the final graph; every necessary change detector is non-stale. -/
+theorem drainHeap_F1 {env : Env} {fuel : Nat} {s s' : State} (I : DInv env s none) (A : F1Inv env s)
+    (h : (drainHeap env fuel).run.run s = (.ok (), s')) :
+    DInv env s' none ∧ F1Inv env s' ∧ s'.rch.length = 0 ∧ s'.vars = s.vars ∧ s'.stabNum = s.stabNum ∧
+    ∀ n, s'.isNecessary n = true → ∀ k, (s'.nodeD n).height.toNat < k →
+      (s'.nodeD n).valid = true ∧ s'.isStale n = false ∧
+        (s'.nodeD n).value = evalB env s' k n ∧ s'.value env n = evalB env s' k n ∧
+        (evalB env s' k n).isSome = true :=
+  BindH.drainHeap_F1 I A h
+
+/-- **C02 + C03 for F1 programs**: the nodes run by a drain are pairwise distinct; each had not run in this round before, and each is still VALID at the end — no node
+of a generation that is invalidated during the drain ran in it. -/
+theorem drain_once_F1 {env : Env} (fuel : Nat) (s s' : State) (I : DInv env s none) (A : F1Inv env s)
+    (h : (drainHeap env fuel).run.run s = (.ok (), s')) :
+    (drainTrace env fuel s).Nodup ∧ ∀ m, m ∈ drainTrace env fuel s → RanOnceB s s' m :=
+  BindH.drain_once_F1 fuel s s' I A h
+
+/-- a run of a change detector in F1 (closure run with node creation, re-linking, invalidation of the previous generation) satisfies `StepL` and keeps `F1Inv` -/
+theorem recomputeOne_lcF1 {env : Env} {fuel n b : Nat} {s s' : State} {r : Option Nat}
+    (I : DInv env s (some n)) (A : F1Inv env s) (hk : (s.nodeD n).kind = .bindLhsChange b)
+    (h : (recomputeOne env fuel n).run.run s = (.ok r, s')) :
+    (∃ br br', StepL env n b br br' r s s') ∧ F1Inv env s' :=
+  BindH.recomputeOne_lcF1 (closure_spec1 env) (relink_spec1 env) (inval_spec1 env) I A hk h
 
 /-! ### non-vacuity of the drain invariant and of the step relation for change detectors
 
